@@ -2,6 +2,7 @@ import Std.Data.HashMap
 import SpVerif.J
 import SpVerif.Ops.SpacePacket
 import SpVerif.Ops.PusTc
+import SpVerif.Ops.PusTm
 /-!
 # Line-protocol driver: one JSON object per input line (`{"op": …, …}`), one JSON result per output line.
 `{"ok": …}` / `{"err": "<category>"}` are model results; `{"bad": "<msg>"}` is a protocol error.
@@ -13,6 +14,7 @@ open SpVerif.J Lean
 def allOps : List (String × Handler) := []
   ++ Ops.SpacePacket.ops
   ++ Ops.PusTc.ops
+  ++ Ops.PusTm.ops
 
 def table : Std.HashMap String Handler := Std.HashMap.ofList allOps
 
